@@ -1,11 +1,935 @@
 /-
   Helper lemmas for C19: which errors the construct engine and the elffile model
   can produce on arbitrary bytes.
+
+  Everything lives in `PyElf.Proofs.ElfErrors` (several names — `identify_ok`, `bind_ok`, … —
+  are natural for other proof files of `PyElf.Proofs` too).
+
+  Layout:
+  * `Only P x` ("every error of `x` satisfies `P`") with its `bind`/`ite`/`throw` rules;
+  * `mapM_range_stops`;
+  * sizes of the Spec's Shdr/Phdr for every configuration and the configuration-generic
+    bounds `getSection_ok_bound`, `getSegment_ok_bound`; `openElf_ok` (class is 32 or 64);
+  * `Con.tame` and `tame_parse`: a construct built from integers, enums, literal-length
+    padding/bytes, structs and arrays fails only with ELFParseError (plus KeyError/TypeError
+    when arrays counted by an earlier field are allowed);
+  * `ConFields.lastNamed` and `parseFields_lastNamed`: which keys a successfully parsed struct
+    has, and which construct produced each value;
+  * `openElf_only` / `openElf_error_closed`;
+  * `NF` (never `outOfFuel`), `rank` and `makeSection_nf` / `getSection_nf`;
+  * the end-to-end forms used by `Props/C19.lean`.
 -/
 import PyElf.Model.ElfFile
 import PyElf.Spec.ElfFactory
 import PyElf.Proofs.Fixed
-namespace PyElf.Proofs
-open PyElf PyElf.Spec PyElf.Model
+namespace PyElf.Proofs.ElfErrors
+open PyElf PyElf.Spec PyElf.Model PyElf.Proofs
 
-end PyElf.Proofs
+/-! ### `Except` plumbing -/
+
+theorem bind_ok {α β : Type} {x : R α} {f : α → R β} {b : β} :
+    (x >>= f) = .ok b ↔ ∃ a, x = .ok a ∧ f a = .ok b := by
+  cases x <;> simp [bind, Except.bind]
+
+theorem bind_err {α β : Type} {x : R α} {f : α → R β} {e : Err} :
+    (x >>= f) = .error e ↔ x = .error e ∨ ∃ a, x = .ok a ∧ f a = .error e := by
+  cases x <;> simp [bind, Except.bind]
+
+/-- every error `x` can raise satisfies `P` -/
+def Only {α : Type} (P : Err → Prop) (x : R α) : Prop := ∀ e, x = .error e → P e
+
+namespace Only
+variable {α β : Type} {P : Err → Prop}
+
+theorem ok (a : α) : Only P (.ok a : R α) := by intro e h; cases h
+theorem pure (a : α) : Only P (Pure.pure a : R α) := by intro e h; cases h
+theorem error {e : Err} (h : P e) : Only P (.error e : R α) := by intro e' h'; cases h'; exact h
+theorem throw {e : Err} (h : P e) : Only P (MonadExcept.throw e : R α) := by intro e' h'; cases h'; exact h
+theorem bind {x : R α} {f : α → R β} (hx : Only P x) (hf : ∀ a, x = .ok a → Only P (f a)) :
+    Only P (x >>= f) := by
+  intro e h
+  cases x with
+  | error e' => cases h; exact hx _ rfl
+  | ok a => exact hf a rfl e h
+theorem ite {c : Prop} [Decidable c] {a b : R α} (ha : c → Only P a) (hb : ¬c → Only P b) :
+    Only P (if c then a else b) := by
+  split
+  · exact ha ‹_›
+  · exact hb ‹_›
+theorem mono {Q : Err → Prop} {x : R α} (h : Only P x) (hpq : ∀ e, P e → Q e) : Only Q x :=
+  fun e he => hpq e (h e he)
+theorem of_eq_ok {x : R α} {a : α} (h : x = .ok a) : Only P x := by rw [h]; exact ok a
+end Only
+
+/-! ### enumeration stops at the first failure -/
+
+theorem mapM_range'_stops {α : Type} (f : Nat → R α) (e : Err) (k : Nat) (hfail : f k = .error e) :
+    ∀ (n s : Nat), s ≤ k → k < s + n → (∀ j, s ≤ j → j < k → ∃ v, f j = .ok v) →
+      (List.range' s n).mapM f = .error e := by
+  intro n
+  induction n with
+  | zero => intro s h1 h2; omega
+  | succ n ih =>
+    intro s h1 h2 hok
+    rw [List.range'_succ, List.mapM_cons]
+    by_cases hs : s = k
+    · subst hs; rw [hfail]; rfl
+    · obtain ⟨v, hv⟩ := hok s (Nat.le_refl _) (by omega)
+      rw [hv, ih (s+1) (by omega) (by omega) (fun j h1 h2 => hok j (by omega) h2)]
+      rfl
+
+theorem mapM_range_stops {α : Type} (f : Nat → R α) (n k : Nat) (e : Err) (hk : k < n)
+    (hfail : f k = .error e) (hok : ∀ j < k, ∃ v, f j = .ok v) :
+    (List.range n).mapM f = .error e := by
+  rw [List.range_eq_range']
+  exact mapM_range'_stops f e k hfail n 0 (Nat.zero_le _) (by omega) (fun j _ h => hok j h)
+
+/-! ### the header structures of the Spec: shape and size -/
+
+theorem shdr_fixed (c : ElfCfg) : (elfStructs c).Elf_Shdr.fixed = true := by rfl
+theorem shdr_sizeof (c : ElfCfg) : (elfStructs c).Elf_Shdr.sizeof = some (16 + 6 * (c.cls/8)) := by
+  simp [elfStructs, st, mkFields, f, enumOf, Con.sizeof, ConFields.sizeof]
+  omega
+theorem phdr_fixed (c : ElfCfg) : (elfStructs c).Elf_Phdr.fixed = true := by
+  simp only [elfStructs]; split <;> rfl
+def phdrSize (c : ElfCfg) : Nat := if c.cls = 32 then 20 + 3 * (c.cls/8) else 8 + 6 * (c.cls/8)
+theorem phdr_sizeof (c : ElfCfg) : (elfStructs c).Elf_Phdr.sizeof = some (phdrSize c) := by
+  simp only [elfStructs, phdrSize]; split <;> simp [st, mkFields, f, enumOf, Con.sizeof, ConFields.sizeof] <;> omega
+
+theorem structParseAt_ok {env : Env} {c : Con} {data : Bytes} {pos : Nat} {r : Val × Nat}
+    (h : structParseAt env c data pos = .ok r) :
+    pos < 2 ^ 63 ∧ ∃ ctx', Con.parse env data c [] pos = .ok (r.1, r.2, ctx') := by
+  unfold structParseAt at h
+  by_cases hp : pos ≥ 2 ^ 63
+  · simp [hp, bind, Except.bind, throw, throwThe, MonadExceptOf.throw] at h
+  · simp only [hp, if_false] at h
+    refine ⟨by omega, ?_⟩
+    simp only [structParse] at h
+    obtain ⟨⟨v, p, cx⟩, h1, h2⟩ := bind_ok.1 h
+    simp [pure, Except.pure] at h2
+    subst h2
+    exact ⟨cx, h1⟩
+
+theorem structParseAt_ok_bound {env : Env} {c : Con} (hc : c.fixed = true) {n : Nat}
+    (hn : c.sizeof = some n) (h0 : 0 < n) {data : Bytes} {pos : Nat} {r : Val × Nat}
+    (h : structParseAt env c data pos = .ok r) : pos + n ≤ data.length := by
+  obtain ⟨_, cx, hp⟩ := structParseAt_ok h
+  by_cases hlt : data.length < pos + n
+  · obtain ⟨e, he⟩ := parse_fixed_truncated' env c hc n hn h0 data pos [] hlt
+    rw [he] at hp; cases hp
+  · omega
+
+theorem sizeofR_ok {c : Con} {n : Nat} (h : c.sizeof = some n) : sizeofR c = .ok n := by
+  simp [sizeofR, h]
+
+theorem phdrSize_pos (c : ElfCfg) : 8 ≤ phdrSize c := by unfold phdrSize; split <;> omega
+
+theorem segmentOffset_ok {c : ElfCfg} {hdr : Val} {i pos : Nat}
+    (h : segmentOffset (elfStructs c) hdr i = .ok pos) :
+    ∃ phoff phentsize, phdrSize c ≤ phentsize ∧ pos = phoff + i * phentsize := by
+  unfold segmentOffset at h
+  obtain ⟨phentsize, -, h⟩ := bind_ok.1 h
+  obtain ⟨phoff, -, h⟩ := bind_ok.1 h
+  rw [sizeofR_ok (phdr_sizeof c)] at h
+  obtain ⟨sz, hsz, h⟩ := bind_ok.1 h
+  cases hsz
+  by_cases hlt : phentsize < phdrSize c
+  · simp [hlt, throw, throwThe, MonadExceptOf.throw, bind, Except.bind] at h
+  · simp [hlt, pure, Except.pure] at h
+    exact ⟨phoff, phentsize, by omega, h.symm⟩
+
+theorem getSegmentHeader_ok_bound {env : Env} {c : ElfCfg} {data : Bytes} {hdr : Val} {i : Nat} {ph : Val}
+    (h : getSegmentHeader env (elfStructs c) data hdr i = .ok ph) :
+    phdrSize c * i + phdrSize c ≤ data.length := by
+  unfold getSegmentHeader at h
+  obtain ⟨pos, hpos, h⟩ := bind_ok.1 h
+  obtain ⟨r, hr, -⟩ := bind_ok.1 h
+  obtain ⟨phoff, phentsize, hge, rfl⟩ := segmentOffset_ok hpos
+  have := structParseAt_ok_bound (phdr_fixed c) (phdr_sizeof c) (by have := phdrSize_pos c; omega) hr
+  have h2 : phdrSize c * i ≤ i * phentsize := by
+    rw [Nat.mul_comm]; exact Nat.mul_le_mul_left i hge
+  omega
+
+theorem getSegment_ok_bound {env : Env} {c : ElfCfg} {data : Bytes} {hdr : Val} {shstr : Option Val}
+    {i : Nat} {r : String × Val}
+    (h : getSegment env (elfStructs c) data hdr shstr i = .ok r) :
+    phdrSize c * (i + 1) ≤ data.length := by
+  unfold getSegment at h
+  obtain ⟨ph, hph, -⟩ := bind_ok.1 h
+  have := getSegmentHeader_ok_bound hph
+  rw [Nat.mul_add]; omega
+
+def shdrSize (c : ElfCfg) : Nat := 16 + 6 * (c.cls / 8)
+theorem shdr_sizeof' (c : ElfCfg) : (elfStructs c).Elf_Shdr.sizeof = some (shdrSize c) := shdr_sizeof c
+
+theorem sectionOffset_ok {c : ElfCfg} {hdr : Val} {i pos : Nat}
+    (h : sectionOffset (elfStructs c) hdr i = .ok pos) :
+    ∃ shoff shentsize, hdr.getNat "e_shoff" = .ok shoff ∧ hdr.getNat "e_shentsize" = .ok shentsize ∧
+      (0 < shoff → shdrSize c ≤ shentsize) ∧ pos = shoff + i * shentsize := by
+  unfold sectionOffset at h
+  obtain ⟨shentsize, h1, h⟩ := bind_ok.1 h
+  obtain ⟨shoff, h2, h⟩ := bind_ok.1 h
+  rw [sizeofR_ok (shdr_sizeof' c)] at h
+  obtain ⟨sz, hsz, h⟩ := bind_ok.1 h
+  cases hsz
+  by_cases hlt : (decide (shoff > 0) && decide (shentsize < shdrSize c)) = true
+  · simp [hlt, throw, throwThe, MonadExceptOf.throw, bind, Except.bind] at h
+  · simp [hlt, pure, Except.pure] at h
+    refine ⟨shoff, shentsize, h2, h1, ?_, h.symm⟩
+    intro h0
+    simp at hlt
+    exact hlt h0
+
+theorem getSectionHeader_ok_some {env : Env} {c : ElfCfg} {data : Bytes} {hdr : Val} {i : Nat} {sh : Val}
+    (h : getSectionHeader env (elfStructs c) data hdr i = .ok (some sh)) :
+    ∃ pos p, sectionOffset (elfStructs c) hdr i = .ok pos ∧ pos ≤ data.length ∧
+      structParseAt env (elfStructs c).Elf_Shdr data pos = .ok (sh, p) := by
+  unfold getSectionHeader at h
+  obtain ⟨pos, hpos, h⟩ := bind_ok.1 h
+  by_cases hgt : pos > data.length
+  · simp [hgt, pure, Except.pure] at h
+  · simp only [hgt, if_false] at h
+    obtain ⟨⟨v, p⟩, hr, h⟩ := bind_ok.1 h
+    simp [pure, Except.pure] at h
+    subst h
+    exact ⟨pos, p, hpos, by omega, hr⟩
+
+theorem getSection_ok {env : Env} {S : ElfStructs} {data : Bytes} {hdr : Val} {shstr : Option Val}
+    {i : Nat} {r : String × Bytes × Val}
+    (h : getSection env S data hdr shstr i = .ok r) :
+    getSectionHeader env S data hdr i = .ok (some r.2.2) ∧
+      makeSection env S data hdr shstr 4 (some r.2.2) = .ok (r.1, r.2.1) := by
+  unfold getSection at h
+  obtain ⟨oh, h1, h⟩ := bind_ok.1 h
+  obtain ⟨⟨kind, name⟩, h2, h⟩ := bind_ok.1 h
+  cases oh with
+  | none => simp [throw, throwThe, MonadExceptOf.throw] at h
+  | some sh =>
+    simp [pure, Except.pure] at h
+    subst h
+    exact ⟨h1, h2⟩
+
+theorem numSections_pos {env : Env} {S : ElfStructs} {data : Bytes} {hdr : Val} {n : Nat}
+    (h : numSections env S data hdr = .ok n) (hn : 0 < n) :
+    ∃ shoff, hdr.getNat "e_shoff" = .ok shoff ∧ 0 < shoff := by
+  unfold numSections at h
+  obtain ⟨shoff, h1, h⟩ := bind_ok.1 h
+  refine ⟨shoff, h1, ?_⟩
+  by_cases h0 : shoff = 0
+  · simp [h0, pure, Except.pure] at h; omega
+  · omega
+
+theorem getSection_ok_bound {env : Env} {c : ElfCfg} {data : Bytes} {hdr : Val} {shstr : Option Val}
+    {n i : Nat} {r : String × Bytes × Val}
+    (hn : numSections env (elfStructs c) data hdr = .ok n) (hi : i < n)
+    (h : getSection env (elfStructs c) data hdr shstr i = .ok r) :
+    shdrSize c * (i + 1) ≤ data.length := by
+  obtain ⟨shoff, hs1, hs0⟩ := numSections_pos hn (by omega)
+  obtain ⟨pos, p, hpos, hle, hparse⟩ := getSectionHeader_ok_some (getSection_ok h).1
+  obtain ⟨shoff', shentsize, hs1', -, hge, rfl⟩ := sectionOffset_ok hpos
+  rw [hs1] at hs1'; cases hs1'
+  have := structParseAt_ok_bound (shdr_fixed c) (shdr_sizeof' c) (by unfold shdrSize; omega) hparse
+  have h2 : shdrSize c * i ≤ i * shentsize := by
+    rw [Nat.mul_comm]; exact Nat.mul_le_mul_left i (hge hs0)
+  rw [Nat.mul_add]; omega
+
+theorem identify_ok {data : Bytes} {cls : Nat} {le : Bool} (h : identify data = .ok (cls, le)) :
+    cls = 32 ∨ cls = 64 := by
+  unfold identify at h
+  by_cases hm : (readN data 0 4 != [0x7f, 0x45, 0x4c, 0x46]) = true
+  · simp [hm, throw, throwThe, MonadExceptOf.throw, bind, Except.bind] at h
+  · simp only [hm] at h
+    simp only [Bool.false_eq_true, if_false] at h
+    split at h <;> split at h <;>
+      simp [pure, Except.pure, throw, throwThe, MonadExceptOf.throw, bind, Except.bind] at h <;> omega
+
+theorem openElf_ok {env : Env} {data : Bytes} {f : ElfFile}
+    (h : openElf env structsFor machineClassOfVal data = .ok f) :
+    ∃ c : ElfCfg, (c.cls = 32 ∨ c.cls = 64) ∧ f.S = elfStructs c ∧ f.data = data := by
+  unfold openElf at h
+  obtain ⟨⟨cls, le⟩, hid, h⟩ := bind_ok.1 h
+  have hcls := identify_ok hid
+  simp only [structsFor] at h
+  obtain ⟨⟨hdr, p0⟩, -, h⟩ := bind_ok.1 h
+  obtain ⟨cfg, hcfg, h⟩ := bind_ok.1 h
+  have hc : cfg.cls = cls := by
+    unfold cfgOfHeader at hcfg
+    obtain ⟨_, -, hcfg⟩ := bind_ok.1 hcfg
+    obtain ⟨_, -, hcfg⟩ := bind_ok.1 hcfg
+    obtain ⟨_, -, hcfg⟩ := bind_ok.1 hcfg
+    obtain ⟨_, -, hcfg⟩ := bind_ok.1 hcfg
+    simp [pure, Except.pure] at hcfg
+    rw [← hcfg]
+  obtain ⟨ndx, -, h⟩ := bind_ok.1 h
+  obtain ⟨sh, -, h⟩ := bind_ok.1 h
+  refine ⟨cfg, hc ▸ hcls, ?_⟩
+  cases sh with
+  | none => simp [pure, Except.pure] at h; subst h; exact ⟨rfl, rfl⟩
+  | some st =>
+    obtain ⟨_, -, h⟩ := bind_ok.1 h
+    simp [pure, Except.pure] at h; subst h; exact ⟨rfl, rfl⟩
+
+/-! ### tame constructs: parse errors are ELFParseError -/
+
+def Expr.isCtx : Expr → Bool
+  | .ctx _ => true
+  | _ => false
+
+mutual
+/-- constructs whose parse can only fail by running out of data or on an unnamed enum value
+    (`b = true`: also arrays counted by an earlier field, which can add KeyError/TypeError) -/
+def Con.tame (b : Bool) : Con → Bool
+  | .uint _ _ => true
+  | .sint _ _ => true
+  | .enum sub _ _ => Con.tame b sub
+  | .struct fs => ConFields.tame b fs
+  | .array e sub => (e.litNat?.isSome || (b && Expr.isCtx e)) && Con.tame b sub
+  | .padding e strict => e.litNat?.isSome && !strict
+  | .bytesN e => e.litNat?.isSome
+  | _ => false
+def ConFields.tame (b : Bool) : ConFields → Bool
+  | .nil => true
+  | .cons _ embed c rest => !embed && Con.tame b c && ConFields.tame b rest
+end
+
+def TameErr (b : Bool) (e : Err) : Prop :=
+  e = .elfParseError ∨ (b = true ∧ (e = .keyError ∨ e = .typeError))
+
+theorem readExact_only (b : Bool) (data : Bytes) (pos n : Nat) : Only (TameErr b) (readExact data pos n) := by
+  unfold readExact
+  simp only
+  split
+  · exact Only.ok _
+  · exact Only.error (Or.inl rfl)
+
+theorem arrayLoop_only {P : Err → Prop} {step : Nat → Fields → PRes}
+    (hstep : ∀ p c, Only P (step p c)) :
+    ∀ n pos ctx acc, Only P (arrayLoop step n pos ctx acc) := by
+  intro n
+  induction n with
+  | zero => intro pos ctx acc; rw [arrayLoop]; exact Only.ok _
+  | succ n ih =>
+    intro pos ctx acc
+    rw [arrayLoop]
+    cases h : step pos ctx with
+    | error e => exact Only.error (hstep pos ctx e h)
+    | ok r => obtain ⟨v, p, c⟩ := r; exact ih _ _ _
+
+mutual
+theorem tame_parse (env : Env) (data : Bytes) (b : Bool) :
+    ∀ (c : Con), Con.tame b c = true → ∀ ctx pos, Only (TameErr b) (Con.parse env data c ctx pos)
+  | .uint n le, _, ctx, pos => by
+      rw [Con.parse]; exact Only.bind (readExact_only b data pos n) (fun _ _ => Only.pure _)
+  | .sint n le, _, ctx, pos => by
+      rw [Con.parse]; exact Only.bind (readExact_only b data pos n) (fun _ _ => Only.pure _)
+  | .enum sub t pass, hc, ctx, pos => by
+      rw [Con.parse]
+      refine Only.bind (tame_parse env data b sub (by simpa [Con.tame] using hc) ctx pos) ?_
+      rintro ⟨v, p, ctx'⟩ _
+      simp only
+      split
+      · split
+        · exact Only.pure _
+        · split
+          · exact Only.pure _
+          · exact Only.error (Or.inl rfl)
+      · split
+        · exact Only.pure _
+        · exact Only.error (Or.inl rfl)
+  | .struct fs, hc, ctx, pos => by
+      rw [Con.parse]
+      exact Only.bind (tame_parseFields env data b fs (by simpa [Con.tame] using hc) [] [] pos)
+        (fun _ _ => Only.pure _)
+  | .array e sub, hc, ctx, pos => by
+      have h : (e.litNat?.isSome = true ∨ (b = true ∧ Expr.isCtx e = true)) ∧ Con.tame b sub = true := by
+        simpa [Con.tame] using hc
+      have hloop := fun n => arrayLoop_only (P := TameErr b)
+        (step := fun p c => Con.parse env data sub c p)
+        (fun p c => tame_parse env data b sub h.2 c p) n pos ctx []
+      rcases h.1 with h1 | ⟨hb, h1⟩
+      · obtain ⟨n, hn⟩ := litNat?_isSome h1
+        rw [parse_array_lit env hn]
+        exact hloop n
+      · cases e <;> simp [Expr.isCtx] at h1
+        rename_i k
+        rw [Con.parse]
+        simp only [Expr.eval]
+        refine Only.bind ?_ (fun v _ => Only.bind ?_ (fun n _ => hloop _))
+        · unfold Fields.getR; split
+          · exact Only.ok _
+          · exact Only.error (Or.inr ⟨hb, Or.inl rfl⟩)
+        · unfold Val.asInt; split
+          · exact Only.ok _
+          · exact Only.ok _
+          · exact Only.error (Or.inr ⟨hb, Or.inr rfl⟩)
+  | .padding e strict, hc, ctx, pos => by
+      have h : e.litNat?.isSome = true ∧ strict = false := by simpa [Con.tame] using hc
+      obtain ⟨n, hn⟩ := litNat?_isSome h.1
+      obtain ⟨-, rfl⟩ := h
+      rw [parse_padding_lit env hn]
+      intro e he
+      cases hr : readExact data pos n with
+      | error e' => rw [hr] at he; cases he; exact readExact_only b data pos n _ hr
+      | ok a => rw [hr] at he; cases he
+  | .bytesN e, hc, ctx, pos => by
+      obtain ⟨n, hn⟩ := litNat?_isSome (e := e) (by simpa [Con.tame] using hc)
+      rw [parse_bytesN_lit env hn]
+      intro e he
+      cases hr : readExact data pos n with
+      | error e' => rw [hr] at he; cases he; exact readExact_only b data pos n _ hr
+      | ok a => rw [hr] at he; cases he
+  | .u24 _, hc, _, _ => by simp [Con.tame] at hc
+  | .uleb, hc, _, _ => by simp [Con.tame] at hc
+  | .sleb, hc, _, _ => by simp [Con.tame] at hc
+  | .cstring, hc, _, _ => by simp [Con.tame] at hc
+  | .prefixed _ _, hc, _, _ => by simp [Con.tame] at hc
+  | .repeatUntilExcl _ _, hc, _, _ => by simp [Con.tame] at hc
+  | .value _, hc, _, _ => by simp [Con.tame] at hc
+  | .ifThenElse _ _ _, hc, _, _ => by simp [Con.tame] at hc
+  | .switch _ _ _, hc, _, _ => by simp [Con.tame] at hc
+  | .noDefault, hc, _, _ => by simp [Con.tame] at hc
+  | .bits _, hc, _, _ => by simp [Con.tame] at hc
+  | .streamOffset, hc, _, _ => by simp [Con.tame] at hc
+  | .initialLength _, hc, _, _ => by simp [Con.tame] at hc
+  | .formatted _, hc, _, _ => by simp [Con.tame] at hc
+  | .unsupported _, hc, _, _ => by simp [Con.tame] at hc
+theorem tame_parseFields (env : Env) (data : Bytes) (b : Bool) :
+    ∀ (fs : ConFields), ConFields.tame b fs = true →
+      ∀ obj ctx pos, Only (TameErr b) (Con.parseFields env data fs obj ctx pos)
+  | .nil, _, obj, ctx, pos => by rw [Con.parseFields]; exact Only.ok _
+  | .cons name embed c rest, hc, obj, ctx, pos => by
+      have h : (embed = false ∧ Con.tame b c = true) ∧ ConFields.tame b rest = true := by
+        simpa [ConFields.tame] using hc
+      obtain ⟨⟨rfl, h2⟩, h3⟩ := h
+      rw [Con.parseFields]
+      simp only [Bool.false_eq_true, if_false]
+      refine Only.bind (tame_parse env data b c h2 ctx pos) ?_
+      rintro ⟨v, p, ctx'⟩ _
+      simp only
+      split
+      · exact tame_parseFields env data b rest h3 _ _ _
+      · exact tame_parseFields env data b rest h3 _ _ _
+end
+
+/-! ### which keys a successfully parsed struct has -/
+
+theorem Fields.get?_set (fs : Fields) (k : String) (v : Val) (k' : String) :
+    Fields.get? (Fields.set fs k v) k' = if k = k' then some v else Fields.get? fs k' := by
+  induction fs with
+  | nil => simp [Fields.set, Fields.get?]
+  | cons kv rest ih =>
+    obtain ⟨k0, v0⟩ := kv
+    simp only [Fields.set]
+    by_cases h0 : k0 = k
+    · subst h0
+      simp only [if_true, Fields.get?]
+      split <;> rfl
+    · simp only [h0, if_false, Fields.get?, ih]
+      by_cases h1 : k0 = k'
+      · subst h1
+        have : ¬ k = k0 := fun h => h0 h.symm
+        simp [this]
+      · simp [h1]
+
+/-- the construct that produces the final value of key `k` in a struct's object
+    (`acc`: the producer of the value already there) -/
+def ConFields.lastNamed (k : String) : ConFields → Option Con → Option Con
+  | .nil, acc => acc
+  | .cons (some nm) false c rest, acc => ConFields.lastNamed k rest (if nm = k then some c else acc)
+  | .cons none false _ rest, acc => ConFields.lastNamed k rest acc
+  | .cons _ true _ _, _ => none
+
+def ParsedBy (env : Env) (data : Bytes) (c : Con) (v : Val) : Prop :=
+  ∃ ctx pos p ctx', Con.parse env data c ctx pos = .ok (v, p, ctx')
+
+theorem parseFields_lastNamed (env : Env) (data : Bytes) (k : String) :
+    ∀ (fs : ConFields) (acc : Option Con) (c : Con) (obj ctx : Fields) (pos : Nat)
+      (obj' : Fields) (p : Nat) (ctx' : Fields),
+      Con.parseFields env data fs obj ctx pos = .ok (obj', p, ctx') →
+      ConFields.lastNamed k fs acc = some c →
+      (∀ c0, acc = some c0 → ∃ v, Fields.get? obj k = some v ∧ ParsedBy env data c0 v) →
+      ∃ v, Fields.get? obj' k = some v ∧ ParsedBy env data c v
+  | .nil, acc, c, obj, ctx, pos, obj', p, ctx', h, hl, hacc => by
+      rw [Con.parseFields] at h
+      cases h
+      exact hacc c hl
+  | .cons name true c1 rest, acc, c, obj, ctx, pos, obj', p, ctx', h, hl, hacc => by
+      cases name <;> simp [ConFields.lastNamed] at hl
+  | .cons none false c1 rest, acc, c, obj, ctx, pos, obj', p, ctx', h, hl, hacc => by
+      rw [Con.parseFields] at h
+      simp only [Bool.false_eq_true, if_false] at h
+      obtain ⟨⟨v1, p1, cx1⟩, h1, h⟩ := bind_ok.1 h
+      simp only [ConFields.lastNamed] at hl
+      exact parseFields_lastNamed env data k rest acc c obj cx1 p1 obj' p ctx' h hl hacc
+  | .cons (some nm) false c1 rest, acc, c, obj, ctx, pos, obj', p, ctx', h, hl, hacc => by
+      rw [Con.parseFields] at h
+      simp only [Bool.false_eq_true, if_false] at h
+      obtain ⟨⟨v1, p1, cx1⟩, h1, h⟩ := bind_ok.1 h
+      simp only [ConFields.lastNamed] at hl
+      refine parseFields_lastNamed env data k rest _ c _ _ p1 obj' p ctx' h hl ?_
+      intro c0 hc0
+      rw [Fields.get?_set]
+      by_cases hk : nm = k
+      · simp only [hk, if_true] at hc0 ⊢
+        cases hc0
+        exact ⟨v1, rfl, ctx, pos, p1, cx1, h1⟩
+      · simp only [hk, if_false] at hc0 ⊢
+        exact hacc c0 hc0
+
+theorem parse_struct_ok {env : Env} {data : Bytes} {fs : ConFields} {ctx : Fields} {pos : Nat}
+    {v : Val} {p : Nat} {ctx' : Fields}
+    (h : Con.parse env data (.struct fs) ctx pos = .ok (v, p, ctx')) :
+    ∃ obj cx, v = .record obj ∧ Con.parseFields env data fs [] [] pos = .ok (obj, p, cx) := by
+  rw [Con.parse] at h
+  obtain ⟨⟨obj, p1, cx⟩, h1, h⟩ := bind_ok.1 h
+  simp [pure, Except.pure] at h
+  obtain ⟨rfl, rfl, -⟩ := h
+  exact ⟨obj, cx, rfl, h1⟩
+
+/-- a successfully parsed struct has every key `lastNamed` finds, holding a value its construct parsed -/
+theorem parsedBy_struct_field {env : Env} {data : Bytes} {fs : ConFields} {v : Val} {k : String} {c : Con}
+    (h : ParsedBy env data (.struct fs) v) (hl : ConFields.lastNamed k fs none = some c) :
+    ∃ x, v.getField k = .ok x ∧ ParsedBy env data c x := by
+  obtain ⟨ctx, pos, p, ctx', h⟩ := h
+  obtain ⟨obj, cx, rfl, hf⟩ := parse_struct_ok h
+  obtain ⟨x, hx, hp⟩ := parseFields_lastNamed env data k fs none c [] [] pos obj p cx hf hl
+    (fun c0 h0 => by cases h0)
+  exact ⟨x, by simp [Val.getField, Fields.getR, hx], hp⟩
+
+theorem parsedBy_uint {env : Env} {data : Bytes} {n : Nat} {le : Bool} {v : Val}
+    (h : ParsedBy env data (.uint n le) v) : ∃ m : Nat, v = .int m := by
+  obtain ⟨ctx, pos, p, ctx', h⟩ := h
+  rw [Con.parse] at h
+  obtain ⟨bs, -, h⟩ := bind_ok.1 h
+  simp [pure, Except.pure] at h
+  exact ⟨_, h.1.symm⟩
+
+theorem parsedBy_struct_nat {env : Env} {data : Bytes} {fs : ConFields} {v : Val} {k : String}
+    {n : Nat} {le : Bool}
+    (h : ParsedBy env data (.struct fs) v) (hl : ConFields.lastNamed k fs none = some (.uint n le)) :
+    ∃ m, v.getNat k = .ok m := by
+  obtain ⟨x, hx, hp⟩ := parsedBy_struct_field h hl
+  obtain ⟨m, rfl⟩ := parsedBy_uint hp
+  exact ⟨m, by simp [Val.getNat, hx, bind, Except.bind, Val.asNat, Val.asInt]⟩
+
+
+/-! ### `ELFFile(stream)` raises only ELFError / ELFParseError -/
+
+/-- the two error classes `ELFFile(...)` may raise -/
+def E2 (e : Err) : Prop := e = .elfError ∨ e = .elfParseError
+
+theorem tameErr_false {e : Err} (h : TameErr false e) : e = .elfParseError := by
+  rcases h with h | ⟨h, -⟩
+  · exact h
+  · cases h
+
+theorem structParse_only {env : Env} {c : Con} {b : Bool} (hc : Con.tame b c = true) (data : Bytes) (pos : Nat) :
+    Only (TameErr b) (structParse env c data pos) := by
+  unfold structParse
+  exact Only.bind (tame_parse env data b c hc [] pos) (fun _ _ => Only.pure _)
+
+theorem structParseAt_only {env : Env} {c : Con} {b : Bool} (hc : Con.tame b c = true) (data : Bytes) (pos : Nat) :
+    Only (TameErr b) (structParseAt env c data pos) := by
+  unfold structParseAt
+  by_cases hp : pos ≥ 2 ^ 63
+  · simp only [hp, if_true]
+    exact Only.bind (Only.throw (Or.inl rfl)) (fun _ _ => structParse_only hc data pos)
+  · simp only [hp, if_false]
+    exact structParse_only hc data pos
+
+theorem structParseAt_parsedBy {env : Env} {c : Con} {data : Bytes} {pos : Nat} {v : Val} {p : Nat}
+    (h : structParseAt env c data pos = .ok (v, p)) : ParsedBy env data c v := by
+  obtain ⟨-, cx, h⟩ := structParseAt_ok h
+  exact ⟨[], pos, p, cx, h⟩
+
+theorem ehdr_tame (c : ElfCfg) : Con.tame false (elfStructs c).Elf_Ehdr = true := by rfl
+theorem shdr_tame (c : ElfCfg) (b : Bool) : Con.tame b (elfStructs c).Elf_Shdr = true := by rfl
+theorem chdr_tame (c : ElfCfg) (b : Bool) : Con.tame b (elfStructs c).Elf_Chdr = true := by
+  simp only [elfStructs]; split <;> rfl
+
+
+structure HdrOK (hdr : Val) : Prop where
+  shstrndx : ∃ m, hdr.getNat "e_shstrndx" = .ok m
+  shentsize : ∃ m, hdr.getNat "e_shentsize" = .ok m
+  shoff : ∃ m, hdr.getNat "e_shoff" = .ok m
+  etype : ∃ a, hdr.getField "e_type" = .ok a
+  emachine : ∃ a, hdr.getField "e_machine" = .ok a
+  osabi : ∃ id a, hdr.getField "e_ident" = .ok id ∧ id.getField "EI_OSABI" = .ok a
+
+structure ShdrOK (sh : Val) : Prop where
+  link : ∃ m, sh.getNat "sh_link" = .ok m
+  flags : ∃ m, sh.getNat "sh_flags" = .ok m
+  offset : ∃ m, sh.getNat "sh_offset" = .ok m
+
+theorem ehdr_shape {env : Env} {data : Bytes} {c : ElfCfg} {hdr : Val}
+    (h : ParsedBy env data (elfStructs c).Elf_Ehdr hdr) : HdrOK hdr := by
+  refine ⟨?_, ?_, ?_, ?_, ?_, ?_⟩
+  · exact parsedBy_struct_nat h (by simp [mkFields, f, ConFields.lastNamed]; exact ⟨rfl, rfl⟩)
+  · exact parsedBy_struct_nat h (by simp [mkFields, f, ConFields.lastNamed]; exact ⟨rfl, rfl⟩)
+  · exact parsedBy_struct_nat h (by simp [mkFields, f, ConFields.lastNamed]; exact ⟨rfl, rfl⟩)
+  · obtain ⟨x, hx, -⟩ := parsedBy_struct_field (k := "e_type") h (by simp [mkFields, f, ConFields.lastNamed]; rfl)
+    exact ⟨x, hx⟩
+  · obtain ⟨x, hx, -⟩ := parsedBy_struct_field (k := "e_machine") h (by simp [mkFields, f, ConFields.lastNamed]; rfl)
+    exact ⟨x, hx⟩
+  · obtain ⟨x, hx, hp⟩ := parsedBy_struct_field (k := "e_ident") h (by simp [mkFields, f, ConFields.lastNamed]; rfl)
+    obtain ⟨y, hy, -⟩ := parsedBy_struct_field (k := "EI_OSABI") hp (by simp [mkFields, ConFields.lastNamed]; rfl)
+    exact ⟨x, y, hx, hy⟩
+
+
+theorem shdr_shape {env : Env} {data : Bytes} {c : ElfCfg} {sh : Val}
+    (h : ParsedBy env data (elfStructs c).Elf_Shdr sh) : ShdrOK sh := by
+  refine ⟨?_, ?_, ?_⟩
+  · exact parsedBy_struct_nat h (by simp [mkFields, f, ConFields.lastNamed]; exact ⟨rfl, rfl⟩)
+  · exact parsedBy_struct_nat h (by simp [mkFields, f, ConFields.lastNamed]; exact ⟨rfl, rfl⟩)
+  · exact parsedBy_struct_nat h (by simp [mkFields, f, ConFields.lastNamed]; exact ⟨rfl, rfl⟩)
+
+theorem identify_only (data : Bytes) : Only E2 (identify data) := by
+  unfold identify
+  intro e h
+  by_cases hm : (readN data 0 4 != [0x7f, 0x45, 0x4c, 0x46]) = true
+  · simp [hm, throw, throwThe, MonadExceptOf.throw, bind, Except.bind] at h
+    exact Or.inl h.symm
+  · simp only [hm] at h
+    simp only [Bool.false_eq_true, if_false] at h
+    split at h <;> split at h <;>
+      simp [pure, Except.pure, throw, throwThe, MonadExceptOf.throw, bind, Except.bind] at h <;>
+      exact Or.inl h.symm
+
+theorem cfgOfHeader_ok {hdr : Val} (h : HdrOK hdr) (mc : Val → String) (cls : Nat) (le : Bool) :
+    ∃ cfg, cfgOfHeader mc cls le hdr = .ok cfg := by
+  obtain ⟨a, ha⟩ := h.etype
+  obtain ⟨b, hb⟩ := h.emachine
+  obtain ⟨id, c, hid, hc⟩ := h.osabi
+  exact ⟨⟨le, cls, mc b, isStr c "ELFOSABI_SOLARIS", isStr a "ET_CORE"⟩,
+    by simp [cfgOfHeader, ha, hb, hid, hc, bind, Except.bind, pure, Except.pure]⟩
+
+theorem sectionOffset_only {c : ElfCfg} {hdr : Val} (h : HdrOK hdr) (n : Nat) :
+    Only E2 (sectionOffset (elfStructs c) hdr n) := by
+  obtain ⟨a, ha⟩ := h.shentsize
+  obtain ⟨b, hb⟩ := h.shoff
+  unfold sectionOffset
+  rw [ha, hb, sizeofR_ok (shdr_sizeof' c)]
+  intro e he
+  by_cases hlt : (decide (b > 0) && decide (a < shdrSize c)) = true
+  · simp [hlt, throw, throwThe, MonadExceptOf.throw, bind, Except.bind] at he
+    exact Or.inl he.symm
+  · simp [hlt, pure, Except.pure, bind, Except.bind] at he
+
+theorem getSectionHeader_only {env : Env} {c : ElfCfg} {data : Bytes} {hdr : Val} (h : HdrOK hdr) (n : Nat) :
+    Only E2 (getSectionHeader env (elfStructs c) data hdr n) := by
+  unfold getSectionHeader
+  refine Only.bind (sectionOffset_only h n) (fun pos _ => ?_)
+  refine Only.ite (fun _ => Only.pure _) (fun _ => ?_)
+  refine Only.bind ?_ (fun _ _ => Only.pure _)
+  exact (structParseAt_only (shdr_tame c false) data pos).mono (fun e he => Or.inr (tameErr_false he))
+
+theorem getSectionHeader_shape {env : Env} {c : ElfCfg} {data : Bytes} {hdr : Val} {n : Nat} {sh : Val}
+    (h : getSectionHeader env (elfStructs c) data hdr n = .ok (some sh)) : ShdrOK sh := by
+  obtain ⟨pos, p, -, -, hp⟩ := getSectionHeader_ok_some h
+  exact shdr_shape (structParseAt_parsedBy hp)
+
+theorem getShstrndx_only {env : Env} {c : ElfCfg} {data : Bytes} {hdr : Val} (h : HdrOK hdr) :
+    Only E2 (getShstrndx env (elfStructs c) data hdr) := by
+  unfold getShstrndx
+  obtain ⟨x, hx⟩ := h.shstrndx
+  rw [hx]
+  refine Only.bind (Only.ok _) (fun x _ => ?_)
+  refine Only.ite (fun _ => Only.pure _) (fun _ => ?_)
+  refine Only.bind (getSectionHeader_only h 0) (fun oh hoh => ?_)
+  cases oh with
+  | none => exact Only.throw (Or.inr rfl)
+  | some h0 =>
+    obtain ⟨m, hm⟩ := (getSectionHeader_shape hoh).link
+    exact Only.of_eq_ok hm
+
+theorem sectionInit_only {env : Env} {c : ElfCfg} {data : Bytes} {sh : Val} (h : ShdrOK sh) :
+    Only E2 (sectionInit env (elfStructs c) data sh) := by
+  unfold sectionInit
+  obtain ⟨fl, hfl⟩ := h.flags
+  obtain ⟨off, hoff⟩ := h.offset
+  rw [hfl]
+  refine Only.bind (Only.ok _) (fun x _ => ?_)
+  simp only []
+  refine Only.ite (fun _ => ?_) (fun _ => Only.pure _)
+  rw [hoff]
+  refine Only.bind (Only.ok _) (fun o _ => Only.bind ?_ (fun _ _ => Only.pure _))
+  exact (structParseAt_only (chdr_tame c false) data o).mono (fun e he => Or.inr (tameErr_false he))
+
+
+theorem openElf_only (env : Env) (data : Bytes) :
+    Only E2 (openElf env structsFor machineClassOfVal data) := by
+  unfold openElf
+  refine Only.bind (identify_only data) ?_
+  rintro ⟨cls, le⟩ -
+  simp only [structsFor]
+  refine Only.bind ((structParseAt_only (ehdr_tame _) data 0).mono
+    (fun e he => Or.inr (tameErr_false he))) ?_
+  rintro ⟨hdr, p0⟩ hparse
+  have hok : HdrOK hdr := ehdr_shape (structParseAt_parsedBy hparse)
+  obtain ⟨cfg, hcfg⟩ := cfgOfHeader_ok hok machineClassOfVal cls le
+  simp only [hcfg]
+  refine Only.bind (Only.ok _) ?_
+  rintro cfg' -
+  refine Only.bind (getShstrndx_only hok) (fun ndx _ => ?_)
+  refine Only.bind (getSectionHeader_only hok ndx) (fun osh hosh => ?_)
+  cases osh with
+  | none => exact Only.pure _
+  | some st =>
+    exact Only.bind (sectionInit_only (getSectionHeader_shape hosh)) (fun _ _ => Only.pure _)
+
+theorem openElf_error_closed (env : Env) (data : Bytes) :
+    (∃ f, openElf env structsFor machineClassOfVal data = .ok f) ∨
+    openElf env structsFor machineClassOfVal data = .error .elfError ∨
+    openElf env structsFor machineClassOfVal data = .error .elfParseError := by
+  cases h : openElf env structsFor machineClassOfVal data with
+  | ok f => exact Or.inl ⟨f, rfl⟩
+  | error e =>
+    rcases openElf_only env data e h with rfl | rfl
+    · exact Or.inr (Or.inl rfl)
+    · exact Or.inr (Or.inr rfl)
+
+
+/-! ### the link recursion of `_make_section` never runs out of fuel -/
+
+/-- errors other than the model's own "ran out of fuel" -/
+abbrev NFE (e : Err) : Prop := e ≠ .outOfFuel
+abbrev NF {α : Type} (x : R α) : Prop := Only NFE x
+
+theorem nf_asInt (v : Val) : NF v.asInt := by
+  intro e h; cases v <;> simp [Val.asInt] at h <;> subst h <;> decide
+theorem nf_asNat (v : Val) : NF v.asNat := by
+  unfold Val.asNat
+  refine Only.bind (nf_asInt v) (fun n _ => ?_)
+  split
+  · exact Only.error (by decide)
+  · exact Only.ok _
+theorem nf_getR (fs : Fields) (k : String) : NF (Fields.getR fs k) := by
+  unfold Fields.getR; split
+  · exact Only.ok _
+  · exact Only.error (by decide)
+theorem nf_getField (v : Val) (k : String) : NF (v.getField k) := by
+  unfold Val.getField; split
+  · exact nf_getR _ _
+  · exact Only.error (by decide)
+theorem nf_getNat (v : Val) (k : String) : NF (v.getNat k) := by
+  unfold Val.getNat
+  exact Only.bind (nf_getField v k) (fun _ _ => nf_asNat _)
+theorem nf_subscript (v : Option Val) (k : String) : NF (subscript v k) := by
+  unfold subscript; split
+  · exact Only.error (by decide)
+  · exact nf_getField _ _
+theorem nf_sizeofR (c : Con) : NF (sizeofR c) := by
+  unfold sizeofR; split
+  · exact Only.ok _
+  · exact Only.error (by decide)
+
+theorem tameErr_nf {b : Bool} {e : Err} (h : TameErr b e) : NFE e := by
+  rcases h with rfl | ⟨-, rfl | rfl⟩ <;> decide
+
+theorem nf_structParseAt {env : Env} {c : Con} (hc : Con.tame true c = true) (data : Bytes) (pos : Nat) :
+    NF (structParseAt env c data pos) :=
+  (structParseAt_only hc data pos).mono (fun _ => tameErr_nf)
+
+theorem nf_parseCStringAt (data : Bytes) (pos : Nat) : NF (parseCStringAt data pos) := by
+  unfold parseCStringAt
+  refine Only.bind ?_ (fun _ _ => ?_)
+  · unfold seekCheck; split
+    · exact Only.error (by decide)
+    · exact Only.ok _
+  · unfold parseCStringFromStream
+    rw [cstringChunkLoop_eq data 64 (by decide) _ _ _ (by omega)]
+    exact Only.ok _
+
+theorem nf_getString (data : Bytes) (st : Val) (off : Nat) : NF (getString data st off) := by
+  unfold getString
+  refine Only.bind (nf_getNat _ _) (fun _ _ => Only.bind (nf_parseCStringAt _ _) (fun r _ => ?_))
+  cases r <;> exact Only.pure _
+
+theorem nf_getSectionName (data : Bytes) (shstr sh : Option Val) : NF (getSectionName data shstr sh) := by
+  unfold getSectionName
+  cases shstr with
+  | none => exact Only.throw (by decide)
+  | some st =>
+    exact Only.bind (nf_subscript _ _) (fun _ _ => Only.bind (nf_asNat _) (fun _ _ => nf_getString _ _ _))
+
+theorem nf_sectionOffset (S : ElfStructs) (hdr : Val) (n : Nat) : NF (sectionOffset S hdr n) := by
+  unfold sectionOffset
+  refine Only.bind (nf_getNat _ _) (fun _ _ => Only.bind (nf_getNat _ _) (fun _ _ =>
+    Only.bind (nf_sizeofR _) (fun _ _ => ?_)))
+  simp only []
+  exact Only.ite (fun _ => Only.bind (Only.throw (by decide)) (fun _ _ => Only.pure _)) (fun _ => Only.pure _)
+
+theorem nf_getSectionHeader (env : Env) (c : ElfCfg) (data : Bytes) (hdr : Val) (n : Nat) :
+    NF (getSectionHeader env (elfStructs c) data hdr n) := by
+  unfold getSectionHeader
+  refine Only.bind (nf_sectionOffset _ _ _) (fun pos _ => ?_)
+  refine Only.ite (fun _ => Only.pure _) (fun _ => ?_)
+  exact Only.bind (nf_structParseAt (shdr_tame c true) data pos) (fun _ _ => Only.pure _)
+
+theorem nf_sectionInit (env : Env) (c : ElfCfg) (data : Bytes) (sh : Val) :
+    NF (sectionInit env (elfStructs c) data sh) := by
+  unfold sectionInit
+  refine Only.bind (nf_getNat _ _) (fun x _ => ?_)
+  simp only []
+  refine Only.ite (fun _ => ?_) (fun _ => Only.pure _)
+  exact Only.bind (nf_getNat _ _) (fun o _ => Only.bind (nf_structParseAt (chdr_tame c true) data o)
+    (fun _ _ => Only.pure _))
+
+theorem byte_tame (c : ElfCfg) : Con.tame true (elfStructs c).Elf_byte = true := by rfl
+theorem hash_tame (c : ElfCfg) : Con.tame true (elfStructs c).Elf_Hash = true := by rfl
+theorem gnuhash_tame (c : ElfCfg) : Con.tame true (elfStructs c).Gnu_Hash = true := by rfl
+
+
+/-- how deep the link recursion of `_make_section` can go from a header of type `ty`
+    (the cascade mirrors `makeSection`) -/
+def rankTy (ty : Val) : Nat :=
+  if isStr ty "SHT_STRTAB" then 1
+  else if isStr ty "SHT_NULL" then 1
+  else if isStr ty "SHT_SYMTAB" || isStr ty "SHT_DYNSYM" || isStr ty "SHT_SUNW_LDYNSYM" then 2
+  else if isStr ty "SHT_SYMTAB_SHNDX" then 1
+  else if isStr ty "SHT_SUNW_syminfo" then 3
+  else if isStr ty "SHT_GNU_verneed" then 2
+  else if isStr ty "SHT_GNU_verdef" then 2
+  else if isStr ty "SHT_GNU_versym" then 3
+  else if isStr ty "SHT_REL" || isStr ty "SHT_RELA" then 1
+  else if isStr ty "SHT_DYNAMIC" then 2
+  else if isStr ty "SHT_NOTE" then 1
+  else if isStr ty "SHT_ARM_ATTRIBUTES" || isStr ty "SHT_RISCV_ATTRIBUTES" then 1
+  else if isStr ty "SHT_HASH" then 3
+  else if isStr ty "SHT_GNU_HASH" then 3
+  else 1
+
+def rank (osh : Option Val) : Nat :=
+  match subscript osh "sh_type" with
+  | .ok t => rankTy t
+  | .error _ => 1
+
+theorem ite_prop {α : Type} {P : α → Prop} {c : Prop} [Decidable c] {a b : α} (ha : P a) (hb : P b) :
+    P (if c then a else b) := by split <;> assumption
+def RB (n : Nat) : Prop := 1 ≤ n ∧ n ≤ 3
+theorem rankTy_bounds (ty : Val) : RB (rankTy ty) := by
+  unfold rankTy
+  repeat' (first | exact ⟨by omega, by omega⟩ | refine ite_prop (P := RB) ?_ ?_)
+theorem rankTy_pos (ty : Val) : 1 ≤ rankTy ty := (rankTy_bounds ty).1
+theorem rankTy_le (ty : Val) : rankTy ty ≤ 3 := (rankTy_bounds ty).2
+theorem rank_pos (osh : Option Val) : 1 ≤ rank osh := by
+  unfold rank; split
+  · exact rankTy_pos _
+  · omega
+theorem rank_le (osh : Option Val) : rank osh ≤ 3 := by
+  unfold rank; split
+  · exact rankTy_le _
+  · omega
+
+theorem isStr_eq {t : Val} {s : String} (h : isStr t s = true) : t = .str s := by
+  cases t <;> simp [isStr] at h
+  rw [h]
+
+theorem rank_of_type {osh : Option Val} {t : Val} (h : subscript osh "sh_type" = .ok t) :
+    rank osh = rankTy t := by simp [rank, h]
+
+theorem rankTy_strtab {t : Val} (h : isStr t "SHT_STRTAB" = true) : rankTy t = 1 := by
+  rw [isStr_eq h]; simp [rankTy, isStr]
+theorem rankTy_nobits {t : Val} (h : isStr t "SHT_NOBITS" = true) : rankTy t = 1 := by
+  rw [isStr_eq h]; simp [rankTy, isStr]
+theorem rankTy_symtab {t : Val} (h : (isStr t "SHT_SYMTAB" || isStr t "SHT_DYNSYM") = true) : rankTy t = 2 := by
+  rcases Bool.or_eq_true _ _ ▸ h with h | h <;> rw [isStr_eq h] <;> simp [rankTy, isStr]
+
+theorem rankTy_strtab_nobits {t : Val} (h : (isStr t "SHT_STRTAB" || isStr t "SHT_NOBITS") = true) :
+    rankTy t = 1 := by
+  rcases Bool.or_eq_true _ _ ▸ h with h | h
+  · exact rankTy_strtab h
+  · exact rankTy_nobits h
+
+theorem not_bnot {b : Bool} (h : ¬(!b) = true) : b = true := by simpa using h
+
+theorem makeSection_nf (env : Env) (c : ElfCfg) (data : Bytes) (hdr : Val) (shstr : Option Val) :
+    ∀ (fuel : Nat) (osh : Option Val), rank osh ≤ fuel →
+      NF (makeSection env (elfStructs c) data hdr shstr fuel osh) := by
+  intro fuel
+  induction fuel with
+  | zero => intro osh h; have := rank_pos osh; omega
+  | succ fuel ih =>
+    intro osh hrank
+    rw [makeSection]
+    refine Only.bind (nf_getSectionName _ _ _) (fun name _ => ?_)
+    cases osh with
+    | none => exact Only.throw (by decide)
+    | some sh =>
+      simp only []
+      refine Only.bind (nf_getField _ _) (fun ty hty => ?_)
+      refine Only.bind (nf_getNat _ _) (fun link _ => ?_)
+      have hr : rankTy ty ≤ fuel + 1 := by
+        rw [← rank_of_type (osh := some sh) (by simpa [subscript] using hty)]; exact hrank
+      clear hrank
+      refine Only.bind ?_ (fun _ _ => Only.pure _)
+      repeat' (with_reducible first
+        | refine ih _ ?_
+        | exact Only.pure _ | exact Only.ok _
+        | exact Only.throw (by decide) | exact Only.error (by decide)
+        | exact nf_getField _ _ | exact nf_getNat _ _ | exact nf_asInt _ | exact nf_sizeofR _
+        | exact nf_sectionInit _ _ _ _ | exact nf_getSectionHeader _ _ _ _ _ | exact nf_subscript _ _
+        | exact nf_structParseAt (byte_tame _) _ _
+        | exact nf_structParseAt (hash_tame _) _ _
+        | exact nf_structParseAt (gnuhash_tame _) _ _
+        | refine Only.bind ?_ (fun _ _ => ?_)
+        | refine Only.ite (fun _ => ?_) (fun _ => ?_)
+        | split)
+      all_goals try (next h => cases h)
+      all_goals
+        refine Nat.le_trans (Nat.le_of_eq (rank_of_type ‹_›)) ?_
+        simp [rankTy, *] at hr
+        first
+        | (rw [rankTy_strtab (not_bnot ‹¬(!isStr _ "SHT_STRTAB") = true›)]; omega)
+        | (rw [rankTy_symtab (not_bnot ‹¬(!(isStr _ "SHT_SYMTAB" || isStr _ "SHT_DYNSYM")) = true›)]; omega)
+        | (rw [rankTy_strtab_nobits (not_bnot ‹¬(!(isStr _ "SHT_STRTAB" || isStr _ "SHT_NOBITS")) = true›)]; omega)
+
+
+theorem getSection_nf (env : Env) (c : ElfCfg) (data : Bytes) (hdr : Val) (shstr : Option Val) (i : Nat) :
+    getSection env (elfStructs c) data hdr shstr i ≠ .error .outOfFuel := by
+  intro h
+  refine (?_ : NF (getSection env (elfStructs c) data hdr shstr i)) _ h rfl
+  unfold getSection
+  refine Only.bind (nf_getSectionHeader _ _ _ _ _) (fun oh _ => ?_)
+  refine Only.bind (makeSection_nf env c data hdr shstr 4 oh (by have := rank_le oh; omega)) ?_
+  rintro ⟨kind, name⟩ -
+  cases oh with
+  | none => exact Only.throw (by decide)
+  | some sh => exact Only.pure _
+
+
+/-! ### end-to-end forms: the file was opened by `openElf`, so its class is 32 or 64 -/
+
+theorem openElf_getSection_bound {env : Env} {data : Bytes} {f : ElfFile}
+    (hf : openElf env structsFor machineClassOfVal data = .ok f)
+    {n i : Nat} {r : String × Bytes × Val}
+    (hn : numSections env f.S data f.header = .ok n) (hi : i < n)
+    (h : getSection env f.S data f.header f.shstr i = .ok r) :
+    40 * i + 40 ≤ data.length := by
+  obtain ⟨c, hc, hS, -⟩ := openElf_ok hf
+  rw [hS] at hn h
+  have hb := getSection_ok_bound hn hi h
+  have h40 : 40 ≤ shdrSize c := by unfold shdrSize; rcases hc with hc | hc <;> rw [hc] <;> decide
+  have := Nat.mul_le_mul_right (i + 1) h40
+  omega
+
+theorem openElf_getSegment_bound {env : Env} {data : Bytes} {f : ElfFile}
+    (hf : openElf env structsFor machineClassOfVal data = .ok f)
+    {i : Nat} {r : String × Val}
+    (h : getSegment env f.S data f.header f.shstr i = .ok r) :
+    32 * i + 32 ≤ data.length := by
+  obtain ⟨c, hc, hS, -⟩ := openElf_ok hf
+  rw [hS] at h
+  have hb := getSegment_ok_bound h
+  have h32 : 32 ≤ phdrSize c := by unfold phdrSize; rcases hc with hc | hc <;> rw [hc] <;> decide
+  have := Nat.mul_le_mul_right (i + 1) h32
+  omega
+
+theorem openElf_getSection_nf {env : Env} {data : Bytes} {f : ElfFile}
+    (hf : openElf env structsFor machineClassOfVal data = .ok f) (i : Nat) :
+    getSection env f.S data f.header f.shstr i ≠ .error .outOfFuel := by
+  obtain ⟨c, -, hS, -⟩ := openElf_ok hf
+  rw [hS]
+  exact getSection_nf env c data f.header f.shstr i
+
+end PyElf.Proofs.ElfErrors
